@@ -545,3 +545,6 @@ from contracts import readpath as _rp  # noqa: E402
 for _n, _hf, _fs in _rp.READ_UNITS:
     register(Unit(P, _n, _hf, functions=_fs, replay=_rp._replay_reads))
 META["trusted"] = META["trusted"] + _rp.META["trusted"]
+
+from contracts import helpers as _HLP  # noqa: E402
+_HLP.register_under("C12", ["HELPER/_get_current_schema"])
